@@ -431,3 +431,26 @@ def r3(ctx):
               list(vals)[0] == (('_unravel_leaves_single_dtype', '_unravel_leaves'), True, True),
               'all backends: empty case, single-dtype fast path, mixed-dtype path with casts',
               'backends differ: %s' % shapes, None)
+
+
+@rule('R4', floor=3, title='the common dtype is computed by an associative promotion')
+def r4(ctx):
+    """Domain fact: numpy.promote_types is not associative (promote(promote(int8, uint8), float16)
+    is float32, numpy.result_type(int8, uint8, float16) is float16), so folding it pairwise over
+    the leaves does not give the common promoted dtype and makes the result depend on leaf order.
+    numpy.result_type is n-ary; jax and torch promotion follow a lattice and may be folded."""
+    pkg = ctx.py()
+    for mname in BACKENDS:
+        mod = pkg.mod(mname)
+        b = mname.split('.')[-1]
+        fn = mod.func('_ravel_leaves')
+        defs = [s for s in walk(fn) if isinstance(s, ast.Assign) and is_name(s.targets[0], 'to_dtype')]
+        ctx.require(len(defs) == 1, '%s._ravel_leaves: %d definitions of to_dtype' % (b, len(defs)))
+        text = src(defs[0].value)
+        pairwise_np = bool(re.search(r'reduce\(\s*(np|numpy)\.promote_types', text))
+        ctx.check('%s._ravel_leaves/promotion' % b, not (b == 'numpy' and pairwise_np),
+                  '%s: common dtype computed as `%s`' % (b, text),
+                  'numpy backend folds np.promote_types pairwise (`%s`): that operation is not '
+                  'associative, the ravel dtype becomes wider than the common promoted dtype for '
+                  'some leaf orders and unravel rejects vectors of the true dtype' % text,
+                  mod.loc(defs[0]))
